@@ -15,6 +15,7 @@ INVARIANT TypeOK
 INVARIANT SignalDiscipline
 INVARIANT FailureReported
 INVARIANT TelemetryOrder
+INVARIANT NoSurvivorWeak
 INVARIANT StopCoversAllOk
 INVARIANT TelemetryCompleteFound
 PROPERTY KillAfterGrace
